@@ -179,11 +179,22 @@ pub fn judge(id: &str, j: &Judged, ctx: &Ctx) -> CaseOut {
     // its in-flight attempts are truncated, so the per-attempt oracles do not apply.
     if log.end == RunEnd::Completed {
         all.extend(own);
-    } else if let ("C02", RunEnd::EscapedPanic(p)) = (id, &log.end) {
-        // C02's own clause: a panicking step / hook / World creation is *Failed with the payload*
-        // and the attempt still reaches Finished. A payload that left the stream did neither.
+    } else if let RunEnd::EscapedPanic(p) = &log.end {
         let open: Vec<String> = m.attempts.iter().filter(|a| a.finished.is_none()).map(|a| format!("{}{:?}", a.scenario, a.retries)).collect();
-        all.push(Violation::new("C02/panic-not-reported-as-failed", format!("the panic `{p}` of a user callback left the event stream instead of becoming a Failed event; attempts left without Finished: {open:?}")));
+        if id == "C02" {
+            // C02's own clause: a panicking step / hook / World creation is *Failed with the payload*
+            // and the attempt still reaches Finished. A payload that left the stream did neither.
+            all.push(Violation::new("C02/panic-not-reported-as-failed", format!("the panic `{p}` of a user callback left the event stream instead of becoming a Failed event; attempts left without Finished: {open:?}")));
+        }
+        if id == "C09" && case.after {
+            // C09's own clause: the after hook runs exactly once after the last executed step - also
+            // after a failed step. The attempts cut off by the escaping panic never got theirs.
+            let after_calls = log.calls.iter().filter(|c| c.phase == crate::lab::Phase::Enter && c.key.starts_with("after:")).count();
+            let started = m.attempts.iter().filter(|a| a.started.is_some()).count();
+            if after_calls < started {
+                all.push(Violation::new("C09/after-hook-missing-after-panic", format!("the panic `{p}` of a user callback tore down the run: {started} attempts started, the after hook ran {after_calls} times; attempts left without Finished: {open:?}")));
+            }
+        }
     }
     // labels
     if case.lazy {
